@@ -138,6 +138,18 @@ int main(void)
       }
       DelMatrix(&x); DelMatrix(&y);
     }
+    else if(!strcmp(op, "yscr")){
+      /* yscr ALGO X Y VTYPE ROUNDS NTH : YScrambling with the given validation type and thread count */
+      long algo = rd_long(); matrix *x = rd_matrix(), *y = rd_matrix();
+      long vtype = rd_long(); size_t rounds = rd_size(), nth = rd_size();
+      MODELINPUT in = initModelInput(); ValidationArg va = initValidationArg(); matrix *cc;
+      in.mx = x; in.my = y; in.nlv = (algo == 0) ? 2 : 0; in.xautoscaling = 1; in.yautoscaling = 0;
+      va.vtype = (ValidationType)vtype; va.rgcv_group = 3; va.rgcv_iterations = 4;
+      initMatrix(&cc);
+      YScrambling(&in, (AlgorithmType)algo, va, rounds, cc, nth, NULL);
+      pr_matrix("cc", cc);
+      DelMatrix(&cc); DelMatrix(&x); DelMatrix(&y);
+    }
     else{ fprintf(stderr, "unknown op %s\n", op); return 2; }
     pr_end();
   }
